@@ -82,6 +82,7 @@ ElemPoint(fn, re) ==
 ExactElemFns == {"recip", "sqrt", "exp", "exp_m1", "sin", "cos", "sinh", "cosh", "asin", "atan",
                  "asinh", "atanh", "ln_1p", "ln"}
 GElem(ty, fn, x) == /\ ElemPoint(fn, x.re)
+                    /\ (TWidth({x.re}) - 1) * (B!Order(ty) + 2) <= 24      \* TLC can hold the tower (powers of re)
                     /\ GChain(ty, x, B!TowerB(fn, x.re, B!Order(ty)))
 GPowi(ty, x, n) ==
     CASE n = 0 -> TRUE
